@@ -137,6 +137,8 @@ def op_text(op):
         return " ".join([k] + [hx(t) for t in op[1]])
     if k == "setcmd":
         return "setcmd %s %s" % (hx(op[1]), hx(op[2]))
+    if k == "setskip":
+        return "setskip %s %s" % (hx(op[1]), hx(op[2]))
     if k in ("write", "writeold"):
         return "write %s %s" % (hx(op[1]), op[2])       # writeold: same for the model (timestamps are not content)
     if k in ("rm", "mkdir", "fifo", "uncopy"):
@@ -993,6 +995,17 @@ def apply_op(proj, op, mstep, b3):
             with open(path, "w") as f:
                 yaml.safe_dump(doc, f, default_flow_style=False)
             proj.cmds[op[1]] = op[2]
+        elif k == "setskip":
+            # the user edits the stage file: an output becomes `skip-cache: true` (everything else, the recorded checksum too, stays)
+            path = proj.abspath(op[1])
+            doc = yaml.safe_load(open(path, "rb").read()) or {}
+            ent = (doc.get("outputs") or {}).get(op[2].decode())
+            if ent is None:
+                ent = {}
+            ent["skip-cache"] = True
+            doc.setdefault("outputs", {})[op[2].decode()] = ent
+            with open(path, "w") as f:
+                yaml.safe_dump(doc, f, default_flow_style=False)
         else:
             raise ValueError(op)
     r["rc"] = rc
